@@ -286,9 +286,13 @@ fn action_json(kind: u8) -> String {
     json!({
         "status_code_update": {"status_code": 302, "on_response_status_codes": [], "exclude_response_status_codes": false, "fallback_status_code": 0, "rule_id": "r", "fallback_rule_id": null, "unit_id": null, "target_hash": null},
         "header_filters": [{"filter": {"action": "override", "header": "Location", "value": "/t", "id": null, "target_hash": null}, "on_response_status_codes": [], "exclude_response_status_codes": false, "rule_id": "r"},
-                           {"filter": {"action": "add", "header": "X-A", "value": "2", "id": null, "target_hash": null}, "on_response_status_codes": [], "exclude_response_status_codes": false, "rule_id": "r"}],
+                           {"filter": {"action": "add", "header": "X-A", "value": "2", "id": null, "target_hash": null}, "on_response_status_codes": [], "exclude_response_status_codes": false, "rule_id": "r"},
+                           // a value that cannot become a C string (NUL inside): its node carries a NULL value
+                           {"filter": {"action": "add", "header": "X-Nul", "value": "a\u{0}b", "id": null, "target_hash": null}, "on_response_status_codes": [], "exclude_response_status_codes": false, "rule_id": "r"}],
         "body_filters": body_filters,
-        "rule_ids": ["r"], "rule_traces": [{"id": "r", "on_response_status_codes": [], "exclude_response_status_codes": false}], "rules_applied": [], "log_override": null
+        "rule_ids": ["r"], "rule_traces": [{"id": "r", "on_response_status_codes": [], "exclude_response_status_codes": false}], "rules_applied": [],
+        "log_override": if kind == 0 { json!({"log_override": false, "rule_id": "log-rule", "on_response_status_codes": [404], "exclude_response_status_codes": false,
+                                               "fallback_log_override": true, "fallback_rule_id": "log-fallback", "unit_id": null}) } else { Value::Null }
     })
     .to_string()
 }
@@ -480,6 +484,11 @@ impl World {
                 if got != want {
                     self.mismatch("action_json_serialize-differs-from-native", format!("{got:?} vs {want:?}"));
                 }
+                // the native mirror received the same calls through the Rust API: same state expected
+                let mirror = self.native_action.as_ref().and_then(|a| serde_json::to_string(a).ok());
+                if got != mirror {
+                    self.mismatch("action-state-differs-from-native-after-same-calls", format!("{got:?} vs {mirror:?}"));
+                }
             }
             GetStatusCode => {
                 let got = redirectionio_action_get_status_code(self.action, 0);
@@ -494,8 +503,15 @@ impl World {
                 let out = redirectionio_action_header_filter_filter(self.action, h.ptr(), 200, k == 0);
                 let mut got = if out == h.ptr() { entries.iter().map(|(n, v)| (n.unwrap().to_string(), v.unwrap().to_string())).collect() } else { take_header_list(out) };
                 let native_in: Vec<Header> = entries.iter().map(|(n, v)| Header { name: n.unwrap().to_string(), value: v.unwrap().to_string() }).collect();
-                let mut want: Vec<(String, String)> =
-                    self.native_action.as_mut().map(|a| a.filter_headers(native_in, 200, k == 0, None)).unwrap_or_default().into_iter().map(|h| (h.name, h.value)).collect();
+                let mut want: Vec<(String, String)> = self
+                    .native_action
+                    .as_mut()
+                    .map(|a| a.filter_headers(native_in, 200, k == 0, None))
+                    .unwrap_or_default()
+                    .into_iter()
+                    // a string with an interior NUL has no C representation: the node must still be there, with a NULL pointer
+                    .map(|h| (if h.name.contains('\0') { "<NULL>".to_string() } else { h.name }, if h.value.contains('\0') { "<NULL>".to_string() } else { h.value }))
+                    .collect();
                 got.sort();
                 want.sort();
                 if got != want {
@@ -534,10 +550,12 @@ impl World {
                 self.buffer = Some((b, bytes));
             }
             ShouldLogRequest => {
-                let got = redirectionio_action_should_log_request(self.action, true, 200);
-                let want = self.native_action.as_mut().map(|a| a.should_log_request(true, 200, None)).unwrap_or(true);
-                if got != want {
-                    self.mismatch("should_log_request-differs-from-native", format!("{got} vs {want}"));
+                for code in [200u16, 404] {
+                    let got = redirectionio_action_should_log_request(self.action, true, code);
+                    let want = self.native_action.as_mut().map(|a| a.should_log_request(true, code, None)).unwrap_or(true);
+                    if got != want {
+                        self.mismatch("should_log_request-differs-from-native", format!("code {code}: {got} vs {want}"));
+                    }
                 }
             }
             SetRemoteAddr => {
